@@ -741,6 +741,9 @@ func (ld *Loaded) verifyContract(c *Contract, useContracts bool, loopMode ...int
 			q.Goals = append(q.Goals, NamedTerm{g.Name, x.b.Implies(retCond, g.T)})
 		}
 		q.Goals = append(q.Goals, x.obligs...)
+		for i := range q.Goals {
+			q.Goals[i].T = x.skolemize(q.Goals[i].T, true)
+		}
 		q.Hyps = x.hyps
 		name := c.Key
 		if inst.label != "" {
@@ -795,4 +798,51 @@ func (x *Exec) unmodelledMods(args []Value, st *State) []modEntry {
 		walk(st.h[p.Obj], nil)
 	}
 	return out
+}
+
+// skolemize replaces universal quantifiers in positive position of a goal by
+// fresh constants (to prove forall k. P(k) is to prove P(w) for an arbitrary
+// w): the query gets smaller for the solver, and a counterexample names the
+// witness - the array cells at w become part of the model the replay rebuilds.
+func (x *Exec) skolemize(t *Term, pos bool) *Term {
+	b := x.b
+	switch t.Op {
+	case "forall":
+		if !pos || t.hasBV {
+			return t
+		}
+		m := map[*Term]*Term{}
+		for _, v := range t.Bound {
+			m[v] = b.Fresh("wit", v.S)
+		}
+		body := b.Subst(t.Args[0], m, map[*Term]*Term{})
+		// the cells at the witness
+		seen := map[*Term]bool{}
+		var walk func(u *Term)
+		walk = func(u *Term) {
+			if seen[u] {
+				return
+			}
+			seen[u] = true
+			if u.Op == "select" {
+				x.noteSelect(u.Args[0], u.Args[1])
+			}
+			for _, a := range u.Args {
+				walk(a)
+			}
+		}
+		walk(body)
+		return x.skolemize(body, pos)
+	case "and":
+		return b.And(x.skolemize(t.Args[0], pos), x.skolemize(t.Args[1], pos))
+	case "or":
+		return b.Or(x.skolemize(t.Args[0], pos), x.skolemize(t.Args[1], pos))
+	case "not":
+		return b.Not(x.skolemize(t.Args[0], !pos))
+	case "ite":
+		if t.S.K == 'b' {
+			return b.Ite(t.Args[0], x.skolemize(t.Args[1], pos), x.skolemize(t.Args[2], pos))
+		}
+	}
+	return t
 }
